@@ -8,6 +8,8 @@ on the versor and on the non-versor arm; a scalar-last quaternion exposes the sa
 w,x,y,z,v,conjugate,product,to_DCM as the scalar-first one; the constructor maps
 order='S' to that storage flag.
 Not decided: rounding.
+Added after seeding rounds 5 and 6 and refactoring round 4 (DESIGN.md 6.10-6.12):
+ IDENT.storage shared with C01 (matrix of a scalar-last object).
 """
 import numpy as np
 from sa import poly as P
